@@ -319,6 +319,14 @@ theorem recv_notUndef (n : Nat) (ih : Sound cfg sfh n) (x : Ty) (b : Ty) (v : Va
     simp only [Bool.and_eq_true, Bool.not_eq_true'] at h
     exact key _ rfl h.1 h.2
 
+/-- a Callable type accepts only Callable types, which have no instance in the value language -/
+theorem recv_callable (p r k : Option Ty) (b : Ty) (v : Val)
+    (h : asgRecv cfg sfh (.callable p r k) b = true) (hi : inst cfg sfh b v = true) :
+    inst cfg sfh (.callable p r k) v = true := by
+  unfold asgRecv at h
+  cases b <;> simp only [] at h <;> (first | contradiction | skip)
+  unfold inst at hi; simp at hi
+
 /-- a Runtime type accepts only Runtime types, which have no instance in the value language -/
 theorem recv_runtime (rt nm : String) (pt : Option String) (b : Ty) (v : Val)
     (h : asgRecv cfg sfh (.runtime rt nm pt) b = true) (hi : inst cfg sfh b v = true) :
